@@ -10,13 +10,15 @@ ADDED_AFTER = {"C02a": "C02.R7", "C08a": "C08.R5", "C10a": "C10.R4", "C11a": "C1
                "C03a": "C03.R6 (written while reading the seed's summary)",
                "C05b": "C05.R4 (pre-pass clause)", "C03b": "C11.R2 (result index)", "C04b": "C04.R5", "C10b": "C10.R5",
                "C11b": "C11.R8", "C16b": "C16.R3 / C10.R6", "C18b": "C18.R6", "C20b": "C20.R4",
-               "C02c": "C02.R8", "C07c": "C07.R7", "C08c": "C08.R6 / C10.R7", "C11c": "C11.R10", "C12c": "C12.R6", "C13c": "C13.R5"}
+               "C02c": "C02.R8", "C07c": "C07.R7", "C08c": "C08.R6 / C10.R7", "C11c": "C11.R10", "C12c": "C12.R6", "C13c": "C13.R5", "C18c": "C18.R7"}
 MISS_WHY = {"C16a": "VerifyProof rejects a true statement for particular tree shapes: completeness of proof verification is value-level (listed as not covered)",
             "C08b": "a delete is elided from the tree commit when the committed value is empty: which keys reach the tree is value-level (canonical-commitment clause, not covered); the loop that filters is order-insensitive and the rules rightly stay silent",
             "C17b": "the carry-over buffer is three bytes shorter than the largest remainder: a boundary value of the byte-stream-equality clause, which C17 does not claim",
             "C05c": "the signature-cache key is built in a fixed 1000-byte buffer and silently truncated for longer tuples: which bytes reach the key is a boundary value (no length reasoning in reach)",
             "C06c": "the secp256k1 verifier is swapped for one that accepts high-s signatures: the semantics of a cryptographic library call (trusted base); it makes the recorded finding F1b (signature bytes are part of the identity but not signed) exploitable for that key type",
             "C10c": "Rollback distinguishes 'absent' from 'present with an empty value' by a nil test on Get: the value nil-versus-empty is value-level",
+            "C16c": "a byte-wise fast path in key.greatestCommonPrefix mis-handles a sibling key whose length is not a multiple of 8: bit arithmetic on tree keys, value-level (proof completeness is listed as not covered)",
+            "C20c": "SafeComputeDY computes its denominator in uint64, which wraps for reserves near 2^64/1000: AMM arithmetic, which C20 does not claim",
             "C19b": "the exclusive upper bound of a prefix scan is computed one byte too long for prefixes ending in 0xFF: byte arithmetic on key ranges, value-level"}
 
 def rules():
